@@ -39,9 +39,38 @@ pub fn extremes() -> Vec<(Vec<u8>, Vec<u8>)> {
     out
 }
 
+/// (salt, message) pairs whose consumed stream (for degree n) contains the 16-bit word `word` — found by scanning
+/// salts idx || 0xB7.. with the message "b"; used with the words at the acceptance boundary (61444 = 5q-1 is the
+/// largest accepted sample, 61445 = 5q the smallest rejected one), which occur in under 1 % of random strings
+pub fn with_word(n: usize, word: u32, count: usize) -> Vec<(Vec<u8>, Vec<u8>)> {
+    let mut out = vec![];
+    let mut i: u64 = 0;
+    while out.len() < count && i < 1_000_000 {
+        let mut salt = vec![0xB7u8; 40];
+        salt[..8].copy_from_slice(&i.to_le_bytes());
+        let mut m = salt.clone();
+        m.push(b'b');
+        let (_, seen) = reference(&m, n);
+        if seen.contains(&word) {
+            out.push((salt, vec![b'b']));
+        }
+        i += 1;
+    }
+    out
+}
+
 pub fn generate(tier: &str, rng: &mut Prng) -> Vec<Case> {
     let mut ops = vec![];
     let thorough = tier == "thorough";
+    // the samples at the acceptance boundary and at the ends of the 16-bit range
+    for word in [61444u32, 61445, 61446, 0, 12288, 12289, 65535] {
+        for (salt, msg) in with_word(512, word, if thorough { 6 } else { 2 }) {
+            let mut m = salt.clone();
+            m.extend_from_slice(&msg);
+            ops.push(Case::new(format!("hash_to_point 512 {}", hex(&m))));
+            ops.push(Case::new(format!("hash_to_point 1024 {}", hex(&m))));
+        }
+    }
     for (salt, msg) in extremes() {
         let mut m = salt.clone();
         m.extend_from_slice(&msg);
